@@ -247,23 +247,34 @@ package stun
 //@   pure
 //@   ensures result == xor32(crc32(b), 0x5354554e)
 
-// ---- getters (C07: total, local, side-effect free) ----
+// ---- getters (C07: total, local, side-effect free; C06: the result is the RFC decoding of the value bytes) ----
+
+//@ define Has(m, t) = First(m.Attributes, t) < len(m.Attributes)
+//@ define AttrVal(m, t) = m.Attributes[First(m.Attributes, t)].Value
 
 //@ func (*XORMappedAddress).GetFromAs
-//@   safety C07
+//@   safety C07 C06
 //@   props C07
 //@   requires a != nil && msg != nil
-//@   requires region(a.IP) != region(msg.Raw)
+//@   requires region(a.IP) != region(msg.Raw) && region(a.IP) != region(AttrVal(msg, attr))
 //@   assigns a.IP, a.Port, mem(a.IP)
 //@   allocates
 //@   ensures unchanged(msg.Raw)
+//@   props C06
+//@   ensures !old(Has(msg, attr)) ==> result != nil
+//@   ensures result == nil ==> old(len(AttrVal(msg, attr))) > 4 && (old(be16(AttrVal(msg, attr), 0)) == 1 || old(be16(AttrVal(msg, attr), 0)) == 2)
+//@   ensures result == nil ==> len(a.IP) == ite(old(be16(AttrVal(msg, attr), 0)) == 2, 16, 4) && old(len(AttrVal(msg, attr))) - 4 <= len(a.IP)
+//@   ensures result == nil ==> a.Port == xor16(old(be16(AttrVal(msg, attr), 2)), 0x2112)
+//@   ensures result == nil ==> forall(j, 0, old(len(AttrVal(msg, attr))) - 4, a.IP[j] == xor8(old(AttrVal(msg, attr)[4+j]), cookie_tid(msg, j)))
+//@   ensures result == nil ==> forall(j, old(len(AttrVal(msg, attr))) - 4, len(a.IP), a.IP[j] == 0)
+//@   props C07
 //@   loop 0
 //@     assigns a.IP, mem(a.IP)
 //@     invariant region(a.IP) == loopold(region(a.IP)) || loopfresh(a.IP)
 //@     decreases ipLen - len(a.IP)
 //@   loop 1
 //@     assigns mem(a.IP)
-//@     invariant -1 <= rangeindex
+//@     invariant -1 <= rangeindex && forall(j, 0, rangeindex+1, a.IP[j] == 0)
 //@     decreases len(a.IP) - rangeindex
 
 //@ func (*XORMappedAddress).GetFrom
@@ -276,20 +287,28 @@ package stun
 //@   ensures unchanged(m.Raw)
 
 //@ func (*MappedAddress).GetFromAs
-//@   safety C07
+//@   safety C07 C06
 //@   props C07
 //@   requires a != nil && m != nil
-//@   requires region(a.IP) != region(m.Raw)
+//@   requires region(a.IP) != region(m.Raw) && region(a.IP) != region(AttrVal(m, t))
 //@   assigns a.IP, a.Port, mem(a.IP)
 //@   allocates
 //@   ensures unchanged(m.Raw)
+//@   props C06
+//@   ensures !old(Has(m, t)) ==> result != nil
+//@   ensures result == nil ==> old(len(AttrVal(m, t))) > 4 && (old(be16(AttrVal(m, t), 0)) == 1 || old(be16(AttrVal(m, t), 0)) == 2)
+//@   ensures result == nil ==> len(a.IP) == ite(old(be16(AttrVal(m, t), 0)) == 2, 16, 4)
+//@   ensures result == nil ==> a.Port == old(be16(AttrVal(m, t), 2))
+//@   ensures result == nil ==> forall(j, 0, min(len(a.IP), old(len(AttrVal(m, t))) - 4), a.IP[j] == old(AttrVal(m, t)[4+j]))
+//@   ensures result == nil ==> forall(j, old(len(AttrVal(m, t))) - 4, len(a.IP), a.IP[j] == 0)
+//@   props C07
 //@   loop 0
 //@     assigns a.IP, mem(a.IP)
 //@     invariant region(a.IP) == loopold(region(a.IP)) || loopfresh(a.IP)
 //@     decreases ipLen - len(a.IP)
 //@   loop 1
 //@     assigns mem(a.IP)
-//@     invariant -1 <= rangeindex
+//@     invariant -1 <= rangeindex && forall(j, 0, rangeindex+1, a.IP[j] == 0)
 //@     decreases len(a.IP) - rangeindex
 
 //@ func (*MappedAddress).GetFrom
@@ -359,22 +378,33 @@ package stun
 //@   assigns *s
 
 //@ func (*ErrorCodeAttribute).GetFrom
-//@   safety C07
+//@   safety C07 C06
 //@   props C07
 //@   requires c != nil && m != nil
 //@   assigns *c
+//@   props C06
+//@   ensures result == nil <==> (Has(m, 0x0009) && len(AttrVal(m, 0x0009)) >= 4)
+//@   ensures result == nil ==> c.Code == AttrVal(m, 0x0009)[2] * 100 + AttrVal(m, 0x0009)[3]
+//@   ensures result == nil ==> sameslice(c.Reason, AttrVal(m, 0x0009)[4:])
+//@   props C07
 
 //@ func (*UnknownAttributes).GetFrom
-//@   safety C07
+//@   safety C07 C06
 //@   props C07
 //@   requires a != nil && m != nil
 //@   requires region(*a) != region(m.Raw)
 //@   assigns *a, mem(*a)
 //@   allocates
+//@   props C06
+//@   ensures result == nil <==> (Has(m, 0x000A) && len(AttrVal(m, 0x000A)) % 2 == 0)
+//@   ensures result == nil ==> len(*a) * 2 == len(AttrVal(m, 0x000A))
+//@   ensures result == nil ==> forall(k, 0, len(*a), (*a)[k] == be16(AttrVal(m, 0x000A), 2*k))
+//@   props C07
 //@   loop 0
 //@     assigns *a, mem(*a)
-//@     invariant 0 <= first && first <= len(v) && (len(v) - first) % 4 == 0
+//@     invariant 0 <= first && first <= len(v) && (len(v) - first) % 2 == 0 && len(*a) * 2 == first
 //@     invariant region(*a) == loopold(region(*a)) || loopfresh(*a)
+//@     invariant forall(k, 0, len(*a), (*a)[k] == be16(v, 2*k))
 //@     decreases len(v) - first
 
 // ---- checkers ----
@@ -760,13 +790,13 @@ package stun
 //@ func UnknownAttributes.AddTo
 //@   safety C09 C06
 //@   props C06 C03
-//@   requires m != nil && len(m.Raw) >= 20 + m.Length && Fits(m, 4 * len(a)) && region(a) != region(m.Raw)
+//@   requires m != nil && len(m.Raw) >= 20 + m.Length && Fits(m, 2 * len(a)) && region(a) != region(m.Raw)
 //@   assigns m.Raw, m.Length, m.Attributes, mem(m.Raw), mem(m.Attributes)
 //@   allocates
 //@   ensures result == nil && AppendedHdr(m, 0x000A, 2 * len(a))
 //@   ensures forall(k, 0, len(a), NewValue(m, 2*k) == a[k] / 256 && NewValue(m, 2*k + 1) == a[k] % 256)
 //@   loop 0
 //@     assigns mem(v)
-//@     invariant -1 <= rangeindex && len(v) == 2 * (rangeindex + 1) && fresh(v)
+//@     invariant -1 <= rangeindex && rangeindex + 1 <= len(a) && len(v) == 2 * (rangeindex + 1) && fresh(v)
 //@     invariant forall(k, 0, rangeindex + 1, v[2*k] == a[k] / 256 && v[2*k + 1] == a[k] % 256)
 //@     decreases len(a) - rangeindex
